@@ -13,11 +13,12 @@ type Ev map[string]interface{}
 // Trace writes ndjson trace lines. It is safe for concurrent use; the order of
 // lines is the order of Emit calls (callers emit at linearization points).
 type Trace struct {
-	mu  sync.Mutex
-	f   *os.File
-	w   *bufio.Writer
-	n   int
-	seq int
+	mu   sync.Mutex
+	path string
+	f    *os.File
+	w    *bufio.Writer
+	n    int
+	seq  int
 }
 
 func NewTrace(path string) (*Trace, error) {
@@ -25,8 +26,19 @@ func NewTrace(path string) (*Trace, error) {
 	if err != nil {
 		return nil, err
 	}
-	return &Trace{f: f, w: bufio.NewWriterSize(f, 1<<20)}, nil
+	return &Trace{path: path, f: f, w: bufio.NewWriterSize(f, 1<<20)}, nil
 }
+
+// Pending notes, next to the trace, the input that is about to be handed to the code under test. Should the code take the
+// process down, the driver attaches it to the crash observation, so that a replay can hand the same input over again.
+func (t *Trace) Pending(e Ev) {
+	if b, err := json.Marshal(e); err == nil {
+		os.WriteFile(t.path+".pending", b, 0o644)
+	}
+}
+
+// Done: the input noted by Pending was handled.
+func (t *Trace) Done() { os.Remove(t.path + ".pending") }
 
 func (t *Trace) Emit(e Ev) {
 	t.mu.Lock()
